@@ -19,7 +19,7 @@ except ImportError:  # pragma: no cover
 
 MAXC = 0x2FFFF
 _STR = z3.StringSort()
-QUICK_MS = int(os.environ.get('PYVC_Z3_QUICK_MS', '1500'))
+QUICK_MS = int(os.environ.get('PYVC_Z3_QUICK_MS', '250'))
 FULL_S = int(os.environ.get('PYVC_SOLVER_S', '20'))
 CVC5 = '/usr/bin/cvc5'
 
@@ -157,6 +157,33 @@ def re_excludes(zre, c):
         if r == z3.unknown: raise Undecided('re_excludes')
         _FACT_CACHE[k] = r == z3.unsat
     return _FACT_CACHE[k]
+def finite_words(zre, limit=24):
+    """all words of L(zre) if there are at most `limit` (else None) -- enumerated by z3 (lemma, cached per pattern)"""
+    k = ('fw', zre.sexpr())
+    if k not in _FACT_CACHE:
+        x = z3.String('__x'); sol = z3.Solver(); sol.set('timeout', 20000)
+        sol.add(z3.InRe(x, zre)); ws = []
+        while True:
+            r = sol.check()
+            if r == z3.unsat: break
+            if r != z3.sat or len(ws) >= limit: ws = None; break
+            w = unescape(sol.model().eval(x, model_completion=True).as_string()); ws.append(w); sol.add(x != z3.StringVal(w))
+        _FACT_CACHE[k] = sorted(ws) if ws is not None else None
+    return _FACT_CACHE[k]
+def words_containing(zre, c, limit=3):
+    """all words of L(zre) that contain c, if there are at most `limit` of them (else None); each enumeration step is a z3 query"""
+    k = ('wc', zre.sexpr(), c)
+    if k not in _FACT_CACHE:
+        x = z3.String('__x'); sol = z3.Solver(); sol.set('timeout', 20000)
+        sol.add(z3.InRe(x, zre), z3.Contains(x, z3.StringVal(c)))
+        ws = []
+        while True:
+            r = sol.check()
+            if r == z3.unsat: break
+            if r != z3.sat or len(ws) >= limit: ws = None; break
+            w = unescape(sol.model().eval(x, model_completion=True).as_string()); ws.append(w); sol.add(x != z3.StringVal(w))
+        _FACT_CACHE[k] = ws
+    return _FACT_CACHE[k]
 def lit_matches(zre, text):
     k = ('lm', zre.sexpr(), text)
     if k not in _FACT_CACHE:
@@ -281,8 +308,27 @@ def model_ok(model, constraints):
     except Exception:
         return False
 
+def _cvc5_api(smt, want_model, budget_s):
+    """cvc5 through its python API (in-process); returns (answer, output)"""
+    import cvc5
+    tm = cvc5.TermManager() if hasattr(cvc5, 'TermManager') else None
+    slv = cvc5.Solver(tm) if tm else cvc5.Solver()
+    slv.setOption('strings-exp', 'true'); slv.setOption('tlimit-per', str(int(budget_s * 1000)))
+    if want_model: slv.setOption('produce-models', 'true'); slv.setOption('strings-fmf', 'true')
+    ip = cvc5.InputParser(slv)
+    ip.setStringInput(cvc5.InputLanguage.SMT_LIB_2_6, '(set-logic QF_SLIA)\n' + smt + ('\n(get-model)\n' if want_model else ''), 'q')
+    sm = ip.getSymbolManager(); outs = []
+    while True:
+        cmd = ip.nextCommand()
+        if cmd.isNull(): break
+        o = cmd.invoke(slv, sm)
+        if o.strip(): outs.append(o.strip())
+        if outs and outs[0] != 'sat': break
+    return (outs[0] if outs else ''), '\n'.join(outs)
+
 def solve(constraints, want_model=False, budget_s=None, label=''):
-    """returns ('sat', Model|None) | ('unsat', backend) ; raises Undecided"""
+    """returns ('sat', Model|None, backend) | ('unsat', None, backend) ; raises Undecided.
+    Portfolio: z3 with a short budget; on `unknown` cvc5 (python API, same process); then z3 with the full budget."""
     budget_s = budget_s or FULL_S
     sol = z3.Solver(); sol.set('timeout', QUICK_MS)
     for c in constraints: sol.add(c)
@@ -292,32 +338,20 @@ def solve(constraints, want_model=False, budget_s=None, label=''):
     if os.environ.get('PYVC_FORCE_CVC5') and want_model: r = z3.unknown     # test hook: exercise the cvc5 model path
     if r == z3.sat: return 'sat', (Model(zm=sol.model()) if want_model else None), 'z3'
     if r == z3.unsat: return 'unsat', None, 'z3'
-    # portfolio: cvc5 in a subprocess, z3 again with the full budget, concurrently
     smt = sol.to_smt2()
     t = time.time()
-    proc, txt = _cvc5_run(smt, want_model, budget_s)
     try:
-        proc.stdin.write(txt); proc.stdin.close()
-    except BrokenPipeError: pass
+        first, out = _cvc5_api(smt, want_model, budget_s)
+    except Exception as e:
+        first, out = '', ''
+    STATS['cvc5'] += 1; STATS['cvc5_t'] += time.time() - t
+    if first == 'unsat': return 'unsat', None, 'cvc5'
+    if first == 'sat': return 'sat', (Model(d=_parse_cvc5_model(out)) if want_model else None), 'cvc5'
     sol2 = z3.Solver(); sol2.set('timeout', int(budget_s * 1000))
     for c in constraints: sol2.add(c)
-    # poll cvc5 first for a short while (it usually answers at once), then let z3 work
-    ans = None
-    try:
-        out = proc.stdout.read() if _wait(proc, 2.0) else None
-        if out is None:
-            t2 = time.time(); r2 = sol2.check(); STATS['z3'] += 1; STATS['z3_t'] += time.time() - t2
-            if r2 != z3.unknown:
-                proc.kill(); proc.wait()
-                return ('sat', Model(zm=sol2.model()) if want_model else None, 'z3') if r2 == z3.sat else ('unsat', None, 'z3')
-            out = proc.stdout.read() if _wait(proc, max(0.1, budget_s - (time.time() - t))) else None
-        STATS['cvc5'] += 1; STATS['cvc5_t'] += time.time() - t
-        if out is not None:
-            first = out.strip().split('\n')[0] if out.strip() else ''
-            if first == 'unsat': return 'unsat', None, 'cvc5'
-            if first == 'sat': return 'sat', (Model(d=_parse_cvc5_model(out)) if want_model else None), 'cvc5'
-    finally:
-        if proc.poll() is None: proc.kill(); proc.wait()
+    t2 = time.time(); r2 = sol2.check(); STATS['z3'] += 1; STATS['z3_t'] += time.time() - t2
+    if r2 == z3.sat: return 'sat', (Model(zm=sol2.model()) if want_model else None), 'z3'
+    if r2 == z3.unsat: return 'unsat', None, 'z3'
     STATS['unknown'] += 1
     raise Undecided(f'both solvers unknown ({label})')
 
@@ -326,10 +360,20 @@ def _wait(proc, secs):
     except subprocess.TimeoutExpired: return False
 
 # ----------------------------------------------------------------------------- path state
+DERIVE_CHARS = '/_.\n?:,&=%+#;~*<> \t\r'
+def _has_vars(e):
+    seen = set(); stack = [e]
+    while stack:
+        x = stack.pop()
+        if x.get_id() in seen: continue
+        seen.add(x.get_id())
+        if z3.is_const(x) and x.decl().kind() == z3.Z3_OP_UNINTERPRETED: return True
+        stack.extend(x.children())
+    return False
 class PathState:
     def __init__(self, decisions=()):
         self.decisions = list(decisions); self.pos = 0
-        self.pc = []; self.excl = {}; self.subst = {}; self.nvars = 0; self.derived = {}
+        self.pc = []; self.excl = {}; self.subst = {}; self.nvars = 0; self.derived = {}; self.nonempty = set(); self.pattern_of = {}; self.domain = {}
         self.pending = []   # alternative decision prefixes discovered
         self.log = []
         self.inputs = {}    # name -> symbolic value (for concretisation)
@@ -344,16 +388,49 @@ class PathState:
     def fresh_str(self, hint, excl=(), pattern=None, nonempty=False):
         v = self.fresh(hint, excl)
         if pattern is not None:
-            zre, _ = pattern_re(pattern); self.assume(z3.InRe(v.z, zre))
-            for c in '/_.\n?:,&=':
+            zre, _ = pattern_re(pattern); self.pattern_of[v.name] = zre
+            ws = finite_words(zre)
+            if ws is not None: self.domain[v.name] = list(ws)       # finite-domain variable: represented by equalities, not by a regex
+            else: self.assume(z3.InRe(v.z, zre))
+            for c in DERIVE_CHARS:
                 if re_excludes(zre, c): self.excl[v.name].add(c); self.derived.setdefault(v.name, set()).add(c)
-        if nonempty: self.assume(v.z != z3.StringVal(''))
+        if nonempty: self.assume(v.z != z3.StringVal('')); self.nonempty.add(v.name)
         return SStr([v])
+    def absent_expr(self, v, c):
+        """z3 formula for `c not in v` together with v's current exclusions"""
+        if v.name in self.domain: return z3.Not(self.contains_expr(v, c))
+        return z3.InRe(v.z, self.excl_re((self.excl.get(v.name, set()) - self.derived.get(v.name, set())) | {c}))
+    def dom(self, name):
+        ex = self.excl.get(name, ())
+        ws = [w for w in self.domain[name] if not any(ch in w for ch in ex)]
+        if name in self.nonempty: ws = [w for w in ws if w]
+        return ws
+    def contains_expr(self, v, c):
+        if v.name in self.domain:
+            ws = [w for w in self.dom(v.name) if c in w]
+            return z3.Or(*[v.z == z3.StringVal(w) for w in ws]) if len(ws) > 1 else (v.z == z3.StringVal(ws[0]) if ws else z3.BoolVal(False))
+        return self._contains_expr(v, c)
+    def _contains_expr(self, v, c):
+        """z3 formula for `c in v` (v a leaf Var).  If v carries a pattern with at most 3 words containing c (lemma discharged by z3,
+        cached per pattern) the formula is a disjunction of equalities, which the solvers decide much faster than str.contains."""
+        zre = self.pattern_of.get(v.name)
+        if zre is not None:
+            ws = words_containing(zre, c)
+            if ws is not None:
+                if not ws: return z3.BoolVal(False)
+                return z3.Or(*[v.z == z3.StringVal(w) for w in ws]) if len(ws) > 1 else v.z == z3.StringVal(ws[0])
+        return z3.Contains(v.z, z3.StringVal(c))
     def excl_re(self, chars):
         return z3.Star(charset([(SC.NEGATE, None)] + [(SC.LITERAL, ord(c)) for c in sorted(chars)]))
-    def assume(self, c): self.pc.append(c)
-    def _constraints(self, extra=()):
-        cs = list(self.pc) + list(extra)
+    def assume(self, c):
+        self.pc.append(c)
+    def _constraints(self, extra=(), all_domains=False):
+        cs = []; ids = set()
+        for c in list(self.pc) + list(extra):
+            if c.get_id() in ids: continue
+            ids.add(c.get_id())
+            if z3.is_true(c): continue
+            cs.append(c)
         names = set()
         seen = set()
         def walk(e):
@@ -362,7 +439,14 @@ class PathState:
             if z3.is_const(e) and e.decl().kind() == z3.Z3_OP_UNINTERPRETED and e.sort() == _STR: names.add(e.decl().name())
             for ch in e.children(): walk(ch)
         for c in cs: walk(c)
+        for n in self.domain:
+            if not self.dom(n): cs.append(z3.BoolVal(False)); break      # a finite-domain variable with no admissible word left: infeasible
+        if all_domains: names |= set(self.domain)       # model queries: every finite-domain variable takes a value of its domain
         for n in sorted(names):
+            if n in self.domain:
+                ws = self.dom(n)
+                cs.append(z3.Or(*[z3.String(n) == z3.StringVal(w) for w in ws]) if len(ws) > 1 else (z3.String(n) == z3.StringVal(ws[0]) if ws else z3.BoolVal(False)))
+                continue
             ex = self.excl.get(n, set()) - self.derived.get(n, set())    # derived exclusions are implied by the variable's own pattern constraint
             if ex: cs.append(z3.InRe(z3.String(n), self.excl_re(ex)))
         return cs
@@ -370,7 +454,7 @@ class PathState:
         r = solve(self._constraints(extra), label='feasibility')
         return r[0] == 'sat'
     def model(self, extra=()):
-        cs = self._constraints(extra)
+        cs = self._constraints(extra, all_domains=True)
         r = solve(cs, want_model=True, label='model')
         if r[0] != 'sat': raise Undecided('model query on infeasible state')
         if not model_ok(r[1], cs):
@@ -387,10 +471,10 @@ class PathState:
             try: return 'refuted', self.model()
             except Undecided as e: return 'undecided', str(e)
         try:
-            r = solve(self._constraints([z3.Not(cond.z)]), want_model=True, label='obligation')
+            r = solve(self._constraints([z3.Not(cond.z)], all_domains=True), want_model=True, label='obligation')
         except Undecided as e: return 'undecided', str(e)
         if r[0] == 'unsat': return 'discharged', r[2]
-        if not model_ok(r[1], self._constraints([z3.Not(cond.z)])):
+        if not model_ok(r[1], self._constraints([z3.Not(cond.z)], all_domains=True)):
             STATS['bad_model'] = STATS.get('bad_model', 0) + 1
             return 'undecided', f'solver ({r[2]}) returned a counter-model that does not satisfy the constraints'
         return 'refuted', r[1]
@@ -399,13 +483,33 @@ class PathState:
         """v := atoms ; rewrite pc so that only leaf vars occur"""
         self.subst[v.name] = tuple(atoms)
         rep = SStr(atoms).z()
-        self.pc = [z3.substitute(c, (v.z, rep)) for c in self.pc]
+        if v.name in self.domain:
+            ws = self.dom(v.name); del self.domain[v.name]
+            if len(atoms) == 1 and isinstance(atoms[0], Var) and atoms[0].name in self.domain:
+                self.domain[atoms[0].name] = [w for w in self.domain[atoms[0].name] if w in ws]
+            elif len(atoms) == 1 and isinstance(atoms[0], Var):
+                self.domain[atoms[0].name] = ws       # the target inherits the finite domain (its own constraints stay in pc)
+            elif all(isinstance(a, str) for a in atoms):
+                if ''.join(atoms) not in ws: self.pc.append(z3.BoolVal(False))
+            else:
+                self.pc.append(z3.Or(*[rep == z3.StringVal(w) for w in ws]) if ws else z3.BoolVal(False))
+        out = []; ids = set()
+        for c in self.pc:
+            c2 = z3.substitute(c, (v.z, rep))
+            if c2.get_id() != c.get_id() and not _has_vars(c2): c2 = z3.simplify(c2)      # ground after substitution: evaluate
+            if z3.is_true(c2) or c2.get_id() in ids: continue
+            ids.add(c2.get_id()); out.append(c2)
+        self.pc = out
     def choose(self, options, label=''):
         """options: list of (name, [constraints]) ; returns index taken; registers siblings."""
         if self.pos < len(self.decisions):
             k = self.decisions[self.pos]; self.pos += 1
         else:
-            feas = [i for i, (_, cs) in enumerate(options) if self.feasible(cs)]
+            feas = []
+            for i, (_, cs) in enumerate(options):
+                # invariant: pc is satisfiable; for an exhaustive two-way split (branch) an infeasible first side makes the second feasible without a query
+                if getattr(self, '_exhaustive', False) and i == len(options) - 1 and not feas: feas.append(i); break
+                if self.feasible(cs): feas.append(i)
             if not feas: raise Infeasible()
             k = feas[0]
             for j in feas[1:]: self.pending.append(self.decisions[:self.pos] + [j])
@@ -415,7 +519,9 @@ class PathState:
         return k
     def branch(self, cond, label=''):
         if isinstance(cond, bool): return cond
-        k = self.choose([('T', [cond.z]), ('F', [z3.Not(cond.z)])], label)
+        self._exhaustive = True
+        try: k = self.choose([('T', [cond.z]), ('F', [z3.Not(cond.z)])], label)
+        finally: self._exhaustive = False
         return k == 0
     def pick(self, n, label=''):
         """non-deterministic choice among n alternatives (harness-level case split)"""
@@ -435,8 +541,8 @@ class PathState:
     def refine_first(self, v, c, label=''):
         """decide whether leaf Var v contains char c; if so v := a c b (a c-free)."""
         ex = self.excl.get(v.name, set())
-        k = self.choose([(f'{c!r} not in {v}', [z3.InRe(v.z, self.excl_re(ex | {c}))]),
-                         (f'{v}=a{c}b', [z3.Contains(v.z, z3.StringVal(c))])], label)
+        k = self.choose([(f'{c!r} not in {v}', [self.absent_expr(v, c)]),
+                         (f'{v}=a{c}b', [self.contains_expr(v, c)])], label)
         self.pc.pop()   # the decision is recorded structurally below, not as a constraint
         if k == 0:
             self.excl[v.name] = ex | {c}
@@ -449,8 +555,8 @@ class PathState:
     def refine_last(self, v, c, label=''):
         """v := a c b with b c-free (last occurrence), or v is c-free"""
         ex = self.excl.get(v.name, set())
-        k = self.choose([(f'{c!r} not in {v}', [z3.InRe(v.z, self.excl_re(ex | {c}))]),
-                         (f'{v}=a{c}b(last)', [z3.Contains(v.z, z3.StringVal(c))])], label)
+        k = self.choose([(f'{c!r} not in {v}', [self.absent_expr(v, c)]),
+                         (f'{v}=a{c}b(last)', [self.contains_expr(v, c)])], label)
         self.pc.pop()
         if k == 0: self.excl[v.name] = ex | {c}
         else:
@@ -504,6 +610,9 @@ class PathState:
         a = self.norm(a); b = self.norm(b)
         if a.atoms == b.atoms: return True
         if a.is_lit() and b.is_lit(): return a.lit() == b.lit()
+        for x, y in ((a, b), (b, a)):
+            if len(x.atoms) == 1 and isinstance(x.atoms[0], Var) and x.atoms[0].name in self.domain and y.is_lit():
+                if y.lit() not in self.dom(x.atoms[0].name): return False
         # strip common literal/variable prefix and suffix (sound: x.u == x.v <=> u == v)
         la, lb = list(a.atoms), list(b.atoms)
         while la and lb and type(la[0]) is type(lb[0]) and (la[0] == lb[0] if isinstance(la[0], str) else la[0].name == lb[0].name): la.pop(0); lb.pop(0)
@@ -536,6 +645,7 @@ class PathState:
             ex = self.excl.get(va.name, set()) | self.excl.get(vb.name, set())
             dv = self.derived.get(va.name, set()) & self.derived.get(vb.name, set())   # only what both patterns imply stays "derived"... conservative: re-assert the rest
             self.excl[va.name] = ex; self.derived[va.name] = self.derived.get(va.name, set()) | self.derived.get(vb.name, set())
+            if vb.name in self.nonempty: self.nonempty.add(va.name)
             self.do_subst(vb, (va,))
     def _split_known(self, s, c):
         parts = [[]]
@@ -547,12 +657,17 @@ class PathState:
         return [SStr(p) for p in parts]
     def truthy_str(self, s):
         s = self.norm(s)
-        if any(isinstance(a, str) for a in s.atoms): return True
+        if any(isinstance(a, str) or a.name in self.nonempty for a in s.atoms): return True
         if not s.atoms: return False
         return SBool(s.z() != z3.StringVal(''))
     def in_re(self, s, zre, src=None):
         s = self.norm(S(s))
         if s.is_lit(): return lit_matches(zre, s.lit())
+        if len(s.atoms) == 1 and s.atoms[0].name in self.domain:
+            v = s.atoms[0]; ws = self.dom(v.name); ok = [w for w in ws if lit_matches(zre, w)]
+            if len(ok) == len(ws): return True if ws else SBool(z3.BoolVal(False))
+            if not ok: return False
+            return SBool(z3.Or(*[v.z == z3.StringVal(w) for w in ok]) if len(ok) > 1 else v.z == z3.StringVal(ok[0]))
         return SBool(z3.InRe(s.z(), zre))
     # ---- obligations
     def oblige(self, name, cond, props=(), info=None):
